@@ -15,10 +15,21 @@ routine names and each run's PSy layer against what the same run produces
 when it runs alone.  strace is used on one schedule per configuration as
 ground truth that the proxies saw every access to the directory.
 
-Self-test of the check (off by default): VF_C29_SELFTEST=drop_excl makes the
-*proxy* strip O_EXCL (emulates a broken implementation), the 'multiple'
-configurations must then report `multiple.same_file`;
-VF_C29_SELFTEST=slow_write splits the write in two with an extra pause.
+Self-test of the check (off by default, never set by the framework):
+  VF_C29_SELFTEST=drop_excl   the *proxy* strips O_EXCL (emulates a broken
+      implementation); the 'multiple' configurations must then report
+      `multiple.same_file` (observed: all 70 schedules of the then smaller
+      tree).
+  VF_C29_SELFTEST=slow_write  the proxy writes the kernel in two halves with
+      an extra pause `mid_write`; 'single' with identical kernels must then
+      also report mechanism `single.read_during_write`.
+Other knobs (debugging): VF_C29_ONLY=<substring of a configuration name>,
+VF_C29_POOL=<schedules in flight>, VF_C29_CAP3=<cap for the thorough-only
+configurations>, VF_C29_WATCHDOG=<seconds>.  VF_C29_ONLY / VF_C29_SELFTEST
+switch the `exhaustive` claim off.
+
+Stand-alone reproduction of the finding `single.read_before_write` with the
+unmodified CLI (SIGSTOP instead of proxies): vf/c29_byhand.py.
 """
 import json
 import os
@@ -40,8 +51,6 @@ TFILES = os.path.join(REPO, "src", "psyclone", "tests", "test_files",
                       "dynamo0p3")
 PSYCLONE = "/venv/bin/psyclone"
 PYC = os.path.join(ROOT, ".build", "c29_pyc")
-POINTS = ("before_create", "after_create", "before_write", "after_close",
-          "before_readback")
 WATCHDOG_S = float(os.environ.get("VF_C29_WATCHDOG", "300"))
 STRACE_SET = ("openat,open,creat,write,pwrite64,writev,rename,renameat,"
               "renameat2,unlink,unlinkat,close")
